@@ -73,8 +73,35 @@ let dep_case id hc ho =
   let l = List.sort compare (Hashtbl.fold (fun k () acc -> k :: acc) outs []) in
   Printf.printf "%s states=%d trans=%d trunc=%b outcomes=%s\n" id nstates ntrans trunc (String.concat ";" l)
 
+(* K-lines: <id> 0 0 K 1 <graph> - - <program>: the committer machine on data d0, d1 *)
+let committer_case id prog =
+  let ops = split_on ',' prog in
+  let num s k = int_of_string (String.sub s k (String.length s - k)) in
+  let parse o =
+    let arg = (fun () -> match String.index_opt o ':', String.index_opt o '=' with
+        | Some k, _ -> int_of_string (String.sub o 1 (k - 1)) | _, Some k -> int_of_string (String.sub o 1 (k - 1)) | _ -> num o 1) () in
+    match o.[0] with
+    | 'N' -> PNew (nat_of_int arg) | 'M' -> PMove (nat_of_int arg)
+    | 'A' -> PAssign (nat_of_int arg, nat_of_int (num o (String.index o ':' + 1)))
+    | 'W' -> PWrite (nat_of_int arg, z_of_int (num o (String.index o '=' + 1)))
+    | 'L' -> PClear (nat_of_int arg) | 'R' -> PRelease (nat_of_int arg) | 'D' -> PDtor (nat_of_int arg)
+    | 'C' -> PCancel (nat_of_int arg) | _ -> failwith "bad op" in
+  let s = ref pinit in
+  let pubat = [| -1; -1 |] in
+  List.iteri (fun k o ->
+      (match pstep !s (parse o) with Some s' -> s := s' | None -> ());
+      for d = 0 to 1 do
+        if pubat.(d) < 0 && int_of_nat (cells !s (nat_of_int d)).dpub >= 1 then pubat.(d) <- k
+      done) ops;
+  let show d =
+    let c = cells !s (nat_of_int d) in
+    Printf.sprintf "d%d:%s/%s/%s" d (if pubat.(d) < 0 then "-" else string_of_int pubat.(d))
+      (if pubat.(d) < 0 then "-" else show_val c.dpubval) (if pubat.(d) < 0 then "-" else show_val c.dval) in
+  Printf.printf "%s %s %s pmove=%b\n" id (show 0) (show 1) (pmove !s)
+
 let () = iter_lines (fun line ->
   match words line with
+  | [id; _; _; "K"; _; _; _; _; prog] -> committer_case id prog
   | [id; "D"; hc; ho] -> dep_case id hc ho
   | [id; _; _; _; _; gs; ps; is; ts] -> graph_case id gs ps is ts
   | _ -> ())
